@@ -586,6 +586,7 @@ impl CompactionWorker {
                     size,
                     levels_before: verif_levels_before,
                     entries,
+                    during_table_compaction: is_table_compaction_running,
                 },
             );
         }
